@@ -53,6 +53,11 @@ CHECKS["C07"] = dict(level="fault_enumeration", engine="crashfs",
    text="7 write histories (one and two flushes, flush+rotation, new segment after rotation, repeated rotation, two indexes, registered persistent query; thorough adds every history of <=4 ingest/flush/rotate operations) run in a child whose package os (build overlay of 4 GOROOT files) reports each mutating operation on the data directory in the order it took effect. Every distinct log prefix (about 1500 crash states in quick) is recovered by a new process booted through the production start-up path: start-up succeeds, every event of a flush completed before the cut is returned exactly once with its content, the flush in progress is all-or-nothing per index buffer, no garbage rows or errors, and one more ingest+rotation loses nothing.",
    note="Process-crash model (completed system calls persist; no torn writes). Per-column writer goroutines are explored in the observed order only; their files become visible only through the later block-summary append, see DESIGN C07. Data directory is configured relative to cwd so that a materialised copy is self-contained. One fix (tmp+rename of .sfm) and one known finding (new column of an in-progress flush).",
    ref="DESIGN.md §2.3, §4 C07")
+CHECKS["C10"] = dict(level="fault_enumeration", engine="crashfs",
+   technique="exhaustive fault enumeration: every truncation length and single-byte modification of WAL files through the real iterators, and every prefix of the file-system operation log of WAL append/rotate histories recovered by the real start-up path",
+   text="Part M: WAL files of the three kinds (datapoints, metric names, segment meta entries; the latter also in truncate-and-rewrite mode) written by the real encoders are cut at every length and modified at every byte (4 values per byte in quick, all 255 in thorough) and fed to the real iterators inside workers limited to 2 GB of address space: the yielded sequence must be a prefix of what was appended or an error, damage must not go unnoticed, no crash, no hang. Part R: datapoint histories with the WAL thresholds pulled down (frame every 2 datapoints, optionally a new WAL file per frame), the 1 s timer flush and a block rotation run in a child whose package os reports every mutation; every distinct log prefix is recovered by a new process (the three Recover*WALData calls in production order) and the block files it leaves are decoded: every datapoint of a WAL frame that an independent reader of the documented frame format finds complete in the crash state must be there, nothing never sent, nothing twice.",
+   note="Process-crash model. Metric-name and meta-entry WAL recovery is covered at iterator level only. In production the WAL recovery runs concurrently with the writer initialisation (startup.go); the check uses the order main-goroutine-first. One fix: block length validated against the file size before allocation.",
+   ref="DESIGN.md §2.3, §2.4, §4 C10")
 NOT_YET = {}
 props = [json.loads(l) for l in open("properties.jsonl")]
 m = {"version": 1, "setup_cmd": "./vcheck setup",
